@@ -33,6 +33,7 @@ struct rt_ctx {
 	struct rsv_result *res;
 	const char *prop;
 	int free_mode;
+	int preset;
 	struct rt_cfg cfg;
 	struct ref_result ref;
 	char other_msg[400];
